@@ -137,6 +137,9 @@ Definition check_ok (c : tcase) : bool :=
   let posI := fun v => znth (o_uvV c) v zero2 in
   let posS := read0 (scaled_vertex_map c) in
   is_partition (c_nv c) free bnd && border_ok c &&
+  (* no repetition in the index lists, every neighbour of an interior vertex listed, every interior vertex joined to
+     the border (the premises of the maximum principle, reflected by Proofs_Disk.disk_links_sound) *)
+  disk_links_b fs (if lap_cotan_flag (c_cotan c) then Some (c_cot c) else None) free bnd &&
   (length B =? length bnd)%nat &&
   match c_mode c with MCircle => circle_ok c | _ => true end &&
   (* the certificate is an exact solution of the model's partitioned system, for both coordinates *)
